@@ -18,7 +18,8 @@ import time
 
 ROOT = os.path.dirname(os.path.dirname(os.path.abspath(__file__)))
 COQ = os.path.join(ROOT, "coq")
-BUILD = os.path.join(ROOT, "build")
+BUILD = os.environ.get("VERIF_BUILD", os.path.join(ROOT, "build"))
+OUT = os.environ.get("VERIF_OUT", ROOT)   # evidence/ and replays/ go here (scratch runs against seeded copies set it)
 REPO = os.environ.get("VERIF_REPO", "/repo")
 PY = "/venv/bin/python"
 
@@ -159,19 +160,19 @@ def ensure_makefile():
             raise RuntimeError("coq_makefile failed:\n" + out)
 
 
-def coq_make(targets, timeout=3000, jobs=8):
+def coq_make(targets, timeout=3000, jobs=8, keep_going=False):
     """make the given .vo targets (full build, never -vos)."""
     with BuildLock():
         gen_src_consts()
         ensure_makefile()
-        rc, out = sh("timeout %d make -j%d %s" % (timeout, jobs, " ".join(targets)), cwd=COQ,
+        rc, out = sh("timeout %d make %s -j%d %s" % (timeout, "-k" if keep_going else "", jobs, " ".join(targets)), cwd=COQ,
                      timeout=timeout + 60)
     return rc, out
 
 
 def coq_build_all(timeout=3400):
     srcs = coq_sources()
-    return coq_make([s[:-2] + ".vo" for s in srcs], timeout=timeout, jobs=16)
+    return coq_make([s[:-2] + ".vo" for s in srcs], timeout=timeout, jobs=16, keep_going=True)
 
 
 def parse_print_assumptions(out):
@@ -427,7 +428,7 @@ class Ctx:
         self.distinct = set()
         self.evaluations = 0
         self.notes = []
-        os.makedirs(os.path.join(ROOT, "replays", cid), exist_ok=True)
+        os.makedirs(os.path.join(OUT, "replays", cid), exist_ok=True)
 
     @property
     def quick(self):
@@ -451,8 +452,8 @@ class Ctx:
             self.cov["samples"].append(obj)
 
     def replay_path(self, tag):
-        n = len(glob.glob(os.path.join(ROOT, "replays", self.cid, "*.json")))
-        return os.path.join(ROOT, "replays", self.cid, "%s_%s_%03d.json" % (self.tier, tag, n))
+        n = len(glob.glob(os.path.join(OUT, "replays", self.cid, "*.json")))
+        return os.path.join(OUT, "replays", self.cid, "%s_%s_%03d.json" % (self.tier, tag, n))
 
     def violation(self, what, replay, key=None, no_input=False, tag="viol"):
         """record a violation (or a known finding if its key is listed)."""
@@ -507,8 +508,8 @@ class Ctx:
             "coverage": cov, "assumptions": self.assumptions,
             "wall_s": round(time.time() - self.t0, 2), "violations": len(self.violations),
         }
-        os.makedirs(os.path.join(ROOT, "evidence"), exist_ok=True)
-        with open(os.path.join(ROOT, "evidence", self.cid + ".json"), "w") as f:
+        os.makedirs(os.path.join(OUT, "evidence"), exist_ok=True)
+        with open(os.path.join(OUT, "evidence", self.cid + ".json"), "w") as f:
             json.dump(ev, f, indent=1, default=str)
         seen = set()
         for k, desc in self.known_hits:
